@@ -30,7 +30,8 @@ Inductive ncase :=
 | NForeign (len : N) (got_error got_data : bool)                        (* Receive of a datagram sent by another user-space socket *)
 | NKernel (got_error : bool) (ty : N)                                   (* Receive of a datagram the kernel sent *)
 | NSeqs (seqs : list N)                                                 (* sequence numbers returned by consecutive Sends *)
-| NConc (per_goroutine : list (list N)).                                (* ... by concurrent senders *)
+| NConc (per_goroutine : list (list N))                                 (* ... by concurrent senders *)
+| NSendFail (len : N).                                                  (* Send on a healthy socket returned an error; len = payload length *)
 
 Definition judge_c18 (c : ncase) : N :=
   match c with
@@ -59,4 +60,5 @@ Definition judge_c18 (c : ncase) : N :=
   | NKernel got_error ty => if got_error then 2 else 0
   | NSeqs seqs => if increasing seqs then 0 else 2
   | NConc l => if forallb increasing l && nodupN (concat l) then 0 else 2
+  | NSendFail len => if len <=? 8970 then 2 else 0     (* every payload the property names must reach the wire *)
   end.
